@@ -1,6 +1,7 @@
 // mkoverlay generates, from the toolchain's own GOROOT sources, patched copies
 // of runtime/rand.go and runtime/alg.go that make map hashing and iteration
-// order a function of a settable salt, plus the -overlay JSON file.
+// order a function of a settable salt, a copy of sync/pool.go whose pools never
+// retain items, plus the -overlay JSON file.
 //
 //	mkoverlay <GOROOT> <outdir> <linkname package path>
 //
@@ -63,11 +64,24 @@ func simGoid() uint64 { return getg().goid }
 	as = replaceOnce(as, "hashkey[i] = uintptr(bootstrapRand())", "hashkey[i] = uintptr(0x6a09e667f3bcc908 + uint64(i)*0x9e3779b97f4a7c15)", "alginit hashkey")
 	as = replaceOnce(as, "key[i] = bootstrapRand()", "key[i] = 0xbb67ae8584caa73b + uint64(i)*0x9e3779b97f4a7c15", "initAlgAES key")
 
+	// sync.Pool: under the race detector Put already drops a quarter of the
+	// items at random; the simulation binary drops all of them.  A pool that
+	// hands an item from one task to another creates a happens-before edge
+	// between two otherwise unrelated tasks (fmt's printer pool does this on
+	// every Sprintf), and in a strictly serialised execution such an edge hides
+	// every earlier unsynchronised access of the first task from the detector.
+	poolPath := filepath.Join(goroot, "src", "sync", "pool.go")
+	pb, err := os.ReadFile(poolPath)
+	must(err)
+	ps := replaceOnce(string(pb), "if runtime_randn(4) == 0 {", "if true || runtime_randn(4) == 0 {", "sync.Pool.Put")
+	po := filepath.Join(out, "pool.go")
+	must(os.WriteFile(po, []byte(ps), 0o644))
+
 	ro := filepath.Join(out, "rand.go")
 	ao := filepath.Join(out, "alg.go")
 	must(os.WriteFile(ro, []byte(rs), 0o644))
 	must(os.WriteFile(ao, []byte(as), 0o644))
-	ov := map[string]map[string]string{"Replace": {randPath: ro, algPath: ao}}
+	ov := map[string]map[string]string{"Replace": {randPath: ro, algPath: ao, poolPath: po}}
 	jb, _ := json.MarshalIndent(ov, "", " ")
 	must(os.WriteFile(filepath.Join(out, "overlay.json"), jb, 0o644))
 }
